@@ -202,6 +202,9 @@ class LoopingCall:
         self.starttime = self.clock.seconds()
         self.interval = interval
         self._runAtStart = now
+        # A count left over from a previous run must not leak into this one:
+        # withCount measures elapsed intervals from this start.
+        self._realLastTime = None
         if now:
             self()
         else:
